@@ -35,7 +35,7 @@ VALUES = [0.0, S, -S, 0.5, -0.5, 0.3, -0.3, 1.0, -1.0, 2.0 + 1.0 / 60, -(2.0 + 1
           359.0 + 59.0 / 60 + 59.0 / 3600, 360.0]
 import numpy as _np
 KS = [2, -1, 0.5, 3, -0.25, _np.float64(-2.0), _np.int64(3)]
-MODS = [360, 90, 1]
+MODS = [360, 90, 1, -360, -90.0, 0.5, _np.float64(-1.0), _np.int64(180)]
 NS = [0, 1, 2, 3, 4]
 ROUND_UNIT = {'deca': ('deg', lambda o: o.dec_angle), 'gona': ('gon', lambda o: o.gon_angle),
               'dms': ('sec', None), 'ddm': ('min', None)}
@@ -347,6 +347,6 @@ SUBCHECKS = [
 
 
 def bounds(tier, seed):
-    return {'leaf_values': len(VALUES), 'classes': CLASSES, 'scalars': [repr(k) for k in KS], 'mods': MODS, 'round_places': NS,
+    return {'leaf_values': len(VALUES), 'classes': CLASSES, 'scalars': [repr(k) for k in KS], 'mods': [repr(k) for k in MODS], 'round_places': NS,
             'depth_full_alphabet': 3, 'depth_sub_alphabet': 4 if tier == 'thorough' else None,
             'chain_depth': 6, 'chain_assignments': 5 ** 7}
